@@ -1,0 +1,42 @@
+//go:build verif
+// +build verif
+
+package kxps
+
+import "time"
+
+// VerifMeter drives the sampling step of a meter with an injected clock.
+// Only built with the verif tag; used by the model-based checks in /verif.
+type VerifMeter struct {
+	imp *kxps
+}
+
+// VerifNewMeter creates the shared meter implementation over s.
+func VerifNewMeter(s interface{ Count() uint64 }) *VerifMeter {
+	return &VerifMeter{imp: newKxps(nil, s)}
+}
+
+// VerifOf returns the implementation behind a Kbps or Krps meter.
+func VerifOf(m interface{}) *VerifMeter {
+	switch m := m.(type) {
+	case *kbps:
+		return &VerifMeter{imp: m.imp}
+	case *krps:
+		return &VerifMeter{imp: m.imp}
+	}
+	return nil
+}
+
+// Sample runs one sampling step at the given instant.
+func (v *VerifMeter) Sample(now time.Time) error { return v.imp.doSample(now) }
+
+// Average reports the average at the given instant.
+func (v *VerifMeter) Average(now time.Time) float64 { return v.imp.sampleAverage(now) }
+
+// Rates reports the 10s, 30s and 300s rates.
+func (v *VerifMeter) Rates() (r10, r30, r300 float64) {
+	return v.imp.Xps10s(), v.imp.Xps30s(), v.imp.Xps300s()
+}
+
+// SetStarted marks the meter started without spawning the sampling goroutine.
+func (v *VerifMeter) SetStarted(b bool) { v.imp.started = b }
